@@ -229,6 +229,14 @@ of_status_t	of_set_fec_parameters  (of_session_t* ses,	of_parameters_t*	params)
 			OF_PRINT_ERROR ( ("Error, codec %d non available\n", ((of_cb_t*)ses)->codec_id))
 			goto error;
 	}
+	if (status != OF_STATUS_OK)
+	{
+		/* the codecs record k and n-k in the control block before testing them: a rejected configuration
+		 * must leave the session without parameters (n = 0), since the ESI range checks of the other entry
+		 * points rely on these fields while the codec's tables have not been allocated. */
+		((of_cb_t*) ses)->nb_source_symbols = 0;
+		((of_cb_t*) ses)->nb_repair_symbols = 0;
+	}
 	OF_EXIT_FUNCTION
 	return status;
 	
@@ -367,6 +375,14 @@ of_status_t	of_build_repair_symbol (of_session_t*	ses, void*	encoding_symbols_ta
 	if (!(((of_cb_t*) ses)->codec_type & OF_ENCODER))
 	{
 		OF_PRINT_ERROR ( ("Error, bad codec_type\n"))
+		goto error;
+	}
+	if (esi_of_symbol_to_build < ((of_cb_t*) ses)->nb_source_symbols ||
+	    esi_of_symbol_to_build >= (((of_cb_t*) ses)->nb_source_symbols + ((of_cb_t*) ses)->nb_repair_symbols))
+	{
+		/* same range check as of_decode_with_new_symbol: in particular a session without (accepted) parameters
+		 * has n = 0 and no parity check matrix or encoding matrix to build from. */
+		OF_PRINT_ERROR ( ("Error, bad parameters esi_of_symbol_to_build(%d) out of range\n", esi_of_symbol_to_build))
 		goto error;
 	}
 	switch ( ( (of_cb_t*) ses)->codec_id)
